@@ -3,3 +3,4 @@ import Strengths.Driver.All
 import Strengths.Props.C06
 import Strengths.Props.C09
 import Strengths.Props.C10
+import Strengths.Props.C08
